@@ -366,12 +366,43 @@ func runC14(w *World, r *Report) {
 	}
 
 	// ---- registry-first: a registered concat function decides for its type whatever the type's kind
-	r.Rule("C14.registry-first", "the built-in key-wise map merge (concatMaps) is entered only where the registry was asked for the chunk type and had nothing: a function registered for a named map type is what concatenates its chunks, as for every other kind", 2)
+	r.Rule("C14.registry-first", "the built-in key-wise map merge (concatMaps) is entered only where the registry was asked for the chunk type and had nothing: a function registered for a named map type is what concatenates its chunks, as for every other kind; the same for the retyping of interface-typed chunks by their dynamic type", 3)
 	{
 		cm := w.Fn("internal", "concatMaps")
 		gcf := w.Fn("internal", "GetConcatFunc")
-		for _, c := range w.staticCallers(cm) {
+		// the other built-in treatment keyed on a kind: interface-typed chunks retyped by their dynamic type (the helper
+		// ConcatItems calls that builds the typed slice)
+		builtins := []*ssa.Function{cm}
+		instrs(w.Fn("internal", "ConcatItems"), func(in ssa.Instruction) {
+			if c, ok := in.(*ssa.Call); ok {
+				if sc := staticCallee(c); sc != nil && w.inRepo(sc) && sc != cm && w.relPkg(fnPkg(sc).Path()) == "internal" && len(callsToName(sc, "reflect.MakeSlice")) > 0 {
+					builtins = append(builtins, sc)
+				}
+			}
+		})
+		var sites []ssa.CallInstruction
+		for _, b := range builtins {
+			sites = append(sites, w.staticCallers(b)...)
+		}
+		for _, c := range sites {
 			if !w.inRepo(c.Parent()) {
+				continue
+			}
+			if sc := staticCallee(c); sc != cm {
+				asked := hasGuard(c.Block(), func(g guard) bool {
+					return guardIsNil(g, func(v ssa.Value) bool {
+						cc, ok := v.(*ssa.Call)
+						return ok && isCallTo(cc, gcf)
+					})
+				})
+				for d := c.Block(); d != nil && !asked; d = d.Idom() {
+					for _, g := range compoundEntryGuards(d) {
+						if guardIsNil(g, func(v ssa.Value) bool { cc, ok := v.(*ssa.Call); return ok && isCallTo(cc, gcf) }) {
+							asked = true
+						}
+					}
+				}
+				r.Check(asked, "C14.registry-first", fmt.Sprintf("%s retypes interface-typed chunks through %s", c.Parent().Name(), sc.Name()), c.Pos(), "under GetConcatFunc(type) == nil", "interface-typed chunks are retyped by their dynamic type before the registry is asked for the interface type: a function registered with RegisterStreamChunkConcatFunc for the node's declared (interface) output type is used when the chunks have mixed dynamic types and bypassed when they share one — [a b c] concatenates, its prefix [a b] fails 'cannot concat multiple non-zero value': the result depends on chunk boundaries")
 				continue
 			}
 			asked := hasGuard(c.Block(), func(g guard) bool {
